@@ -94,6 +94,7 @@ func (g *Goodbye) Unmarshal(rawPacket []byte) error {
 	}
 
 	g.Sources = make([]uint32, header.Count)
+	g.Reason = ""
 
 	reasonOffset := int(headerLength + header.Count*ssrcLength)
 	if reasonOffset > len(rawPacket) {
